@@ -51,7 +51,10 @@ def cases(rng, n):
     F0 = 0.3 * rng.standard_normal((n, kk))
     Pd, Kd = matzoo.spd(rng, n), matzoo.spd(rng, kk)
     for sign in (1, -1):
-        Fs = F0 * (0.5 if sign == -1 else 1.0)
+        Fs = F0
+        if sign == -1:      # keep the downdate positive definite with a margin for every draw
+            lam = np.max(np.abs(np.linalg.eigvals(np.linalg.solve(Pd, F0 @ Kd @ F0.T))))
+            Fs = F0 * np.sqrt(0.4 / max(lam, 1e-12))
         out.append((f"PositiveDefiniteLowRankUpdate(sign={sign})", {"p": Fs},
                     lambda t, sign=sign: mm.PositiveDefiniteLowRankUpdateMatrix(mm.DenseRectangularMatrix(t["p"]), mm.DensePositiveDefiniteMatrix(Pd), mm.DensePositiveDefiniteMatrix(Kd), sign=sign),
                     lambda t, sign=sign: Pd + sign * t["p"] @ Kd @ t["p"].T, None))
